@@ -117,7 +117,7 @@ func failKey(sd StepDesc) string {
 				return "crop:non-identity-indices"
 			}
 		}
-	case "laplacian":
+	case "laplacian", "laplacian_axis":
 		if d.Has(3, o.attrName()) && o.Iter > 0 {
 			if topo == modeling.LineLoopTopology && len(d.Idx) == 0 {
 				return "laplacian:empty-line-loop"
@@ -143,10 +143,11 @@ func OpCase(sd StepDesc) (c hx.Case, outs []Desc, class string) {
 	for i, d := range sd.Ins {
 		ins[i] = d.Mesh()
 	}
+	sd.Op.Exp = sd.Ins[0].Exp
 	res, class, msg := Apply(sd.Op, ins)
 	c = hx.Case{Kind: "op", Desc: sd, FailKey: failKey(sd)}
 	for _, m := range res {
-		p, err := Project(m)
+		p, err := ProjectWith(m, ProjectOpt{Exp: sd.Ins[0].Exp})
 		if err != nil {
 			c.GoFail = "exact operation " + sd.Op.Op + " returned a value outside the exact domain: " + err.Error()
 		}
@@ -280,7 +281,7 @@ func expectedValues(sd StepDesc) [][]float64 {
 			}
 		}
 		return out
-	case "laplacian":
+	case "laplacian", "laplacian_axis":
 		pos := attrData(d, 3, o.attrName())
 		topo := modeling.Topology(d.Topo)
 		nb := make([]map[int]bool, len(pos))
@@ -336,8 +337,13 @@ func expectedValues(sd StepDesc) [][]float64 {
 						s[k] += cur[n][k]
 					}
 				}
+				ax := [3]float64{1, 1, 1}
+				if o.Op == "laplacian_axis" { // LaplacianSmoothAlongAxis: the step is multiplied by |axis| / ||axis||
+					l := math.Sqrt(float64(o.V[0]*o.V[0] + o.V[1]*o.V[1] + o.V[2]*o.V[2]))
+					ax = [3]float64{math.Abs(float64(o.V[0])) / l, math.Abs(float64(o.V[1])) / l, math.Abs(float64(o.V[2])) / l}
+				}
 				for k := 0; k < 3; k++ {
-					cur[vi][k] = cur[vi][k] + (s[k]/float64(len(ns))-cur[vi][k])*o.Factor
+					cur[vi][k] = cur[vi][k] + (s[k]/float64(len(ns))-cur[vi][k])*o.Factor*ax[k]
 				}
 			}
 		}
@@ -508,6 +514,42 @@ func Chain(run *hx.Run, r *hx.Rng, kinds []string, maxDepth int) {
 	preferDecimal = 99
 	weldFirst := false
 	centreFirst := false
+	switch r.Intn(24) {
+	case 0, 1: // needles: one RemoveNullFaces3D call with an exactly decided threshold, at some scale
+		d, o, tkinds := Needles(r)
+		run.Count("source:needles")
+		for _, k := range tkinds {
+			run.Count("needles:" + k)
+		}
+		run.Count(fmt.Sprintf("needles:exp=%d", d.Exp))
+		run.Count("op:remove_null")
+		c, _, class := OpCase(StepDesc{Ins: []Desc{d}, Op: o})
+		run.Count("class:" + class)
+		run.Add(c)
+		return
+	case 2, 3, 4: // surfaces with a definite neighbourhood structure: neighbourhood-based operations first
+		d, shape := Surface(r)
+		run.Count("source:surface:" + shape)
+		var o OpDesc
+		for tries := 0; tries < 10; tries++ {
+			o = RandomOp(r, d, SurfaceOps)
+			if o.Op == "laplacian" || o.Op == "laplacian_axis" {
+				if o.Iter == 0 {
+					o.Iter = r.Range(1, 3)
+				}
+				o.Attr, o.Variant = "Position", hx.Pick(r, []string{"", "t"})
+				if o.Op == "laplacian_axis" {
+					o.Variant = ""
+				}
+			}
+			if suitable(o.Op, d) {
+				break
+			}
+		}
+		run.Count("op:" + o.Op)
+		run.Add(FrameCase(StepDesc{Ins: []Desc{d}, Op: o}))
+		return
+	}
 	switch r.Intn(10) {
 	case 8, 9:
 		cur, preferDecimal = Clustered(r)
